@@ -9,6 +9,7 @@ import (
 	"math"
 	"reflect"
 	"sync"
+	"syscall"
 
 	"github.com/superfly/litefs"
 	lfshttp "github.com/superfly/litefs/http"
@@ -222,6 +223,20 @@ func (e *env) checkFrameRead(wire []byte, cut int, complete bool, orig litefs.St
 			e.rep.Nonconf("ReadStreamFrame(%s, cut %s): model predicts error class %q, code returned %v", tname, where, predicted, err)
 		}
 	}
+	if !hostile && cut > 0 {
+		// the same prefix, but the stream ends because the connection broke (the reader reports an error that is
+		// not an end of file): the frame was not received either
+		var got2 litefs.StreamFrame
+		var err2 error
+		tr2 := &splitReader{b: wire[:cut], sizes: sizes, eofWithData: eofWithData, endErr: syscall.ECONNRESET}
+		p2 := e.s.real("ReadStreamFrame", func() { got2, err2 = litefs.ReadStreamFrame(tr2) })
+		e.rep.Eval(1)
+		if p2 != nil {
+			e.violate("no-panic", "panic/ReadStreamFrame/"+tname, mergeDet(det, map[string]any{"panic": p2, "stream_end": "connection reset"}), rp)
+		} else if err2 == nil {
+			e.violate("truncated-is-error", "frame/cut-by-a-connection-error-accepted/"+tname+"/"+where, mergeDet(det, map[string]any{"what": "the connection broke inside the frame (read error ECONNRESET after the given bytes) and a frame was returned as a value", "read": fmt.Sprintf("%.200v", got2), "stream_end": "connection reset"}), rp)
+		}
+	}
 }
 
 func mergeDet(a, b map[string]any) map[string]any {
@@ -385,4 +400,3 @@ func (e *env) checkRFA(src []byte, off, N int, sizes []int, ee bool, predicted s
 		e.rep.Nonconf("ReadFullAt(src %d, off %d, buf %d): model predicts n=%d %q, code returned n=%d %v", len(src), off, N, predictedN, predicted, n, err)
 	}
 }
-
